@@ -370,6 +370,10 @@ Proof.
     destruct (needs_post true m rb); [|discriminate].
     destruct (do_sync data lock true true (strict_ss data s) k) eqn:Ed; [|discriminate]. inversion E; subst.
     apply Same. cbn. erewrite do_sync_acks; [|exact Ed]. reflexivity.
+  - destruct (pc data s) as [| | | | |m0 ? ?| | | | | | | | | ]; try discriminate.
+    destruct m0; try discriminate. destruct (ls_mark data s); [discriminate|].
+    match type of E with (if ?c then _ else _) = _ => destruct c; [|discriminate] end.
+    inversion E; subst. apply Same. reflexivity.
   - destruct (in_call (pc data s) && opened data s); [|discriminate]. inversion E; subst.
     apply Same. unfold fail_st.
     destruct (ls_mark data s); destruct (clear && fail_clears (pc data s)); reflexivity.
